@@ -15,11 +15,7 @@ Check C07_cli_path_env_last :
   forall A (env : list A), search_list [] env = env.
 Check C07_load_once :
   forall w fuel h c,
-    utf8_file w c = true ->
     (count (is_ok_load c) (s_log (snd (run_hist w fuel h init))) <= 1)%nat.
-Check C07_load_once_refuted :
-  exists w fuel h c,
-    count (is_ok_load c) (s_log (snd (run_hist w fuel h init))) = 2%nat.
 Check C07_eval_once :
   forall w fuel h c,
     (count (is_done c) (s_log (snd (run_hist w fuel h init))) <= 1)%nat /\
